@@ -131,6 +131,15 @@ Theorem C13_no_escaping_state : escaping_guarded_state = [].
 Proof. exact no_escaping_state. Qed.
 Print Assumptions C13_no_escaping_state.
 
+(* Atomicity of the operations with respect to their own lock: no function
+   releases an object's mutex and takes it again, so there is no window
+   inside an operation (e.g. between "detach the connections" and "mark the
+   client closed" of a teardown) in which a concurrent operation on the same
+   object can run. *)
+Theorem C13_atomic_sections : split_critical_sections = [].
+Proof. exact atomic_sections. Qed.
+Print Assumptions C13_atomic_sections.
+
 (* A rank on lock classes that increases strictly along every extracted
    edge (lock possibly held -> lock acquired, through the call graph with
    interface dispatch expanded) exists ... *)
